@@ -363,3 +363,239 @@ Qed.
 (* closing ends it: right after CloseSession with the token, the token names no session *)
 Lemma sess_closed : forall ss c tok, alist_get tok (sess_step ss (EReq c tok RCloseSession)) = None.
 Proof. intros. cbn [sess_step]. apply alist_get_del_same. Qed.
+
+(* ---------------- C32: ids ---------------- *)
+From Coq Require Import ZifyN ZifyNat ZifyBool.
+
+Definition ids_below {A} (l : list (N * A)) (bound : N) : Prop := forall e, In e l -> 0 < fst e /\ fst e <= bound.
+
+(* invariant: live ids are distinct, non-zero and not above the counters *)
+Definition ids_inv (s : srv) : Prop :=
+  NoDup (map fst (sv_subs s)) /\ ids_below (sv_subs s) (sv_last_sub s) /\
+  NoDup (map fst (sv_items s)) /\ ids_below (sv_items s) (sv_item_ctr s).
+
+Lemma next_id_small : forall last, last < 4294967295 -> next_id last = last + 1.
+Proof.
+  intros last H. unfold next_id, wrap32. rewrite N.mod_small by lia.
+  destruct (last + 1 =? 0) eqn:E; [apply N.eqb_eq in E; lia | reflexivity].
+Qed.
+
+Lemma ids_below_set : forall A (l : list (N * A)) bound k v, ids_below l bound -> bound < k ->
+  ids_below (alist_set k v l) k.
+Proof.
+  intros A l bound k v Hb Hk e He. destruct (in_alist_set _ _ _ _ _ He) as [->|Hin].
+  - cbn [fst]. lia.
+  - destruct (Hb _ Hin). lia.
+Qed.
+
+Lemma ids_below_sub : forall A (l l' : list (N * A)) bound, (forall e, In e l' -> In e l) -> ids_below l bound -> ids_below l' bound.
+Proof. intros A l l' bound Hs Hb e He. apply Hb. now apply Hs. Qed.
+
+Lemma fresh_above : forall A (l : list (N * A)) bound k, ids_below l bound -> bound < k -> alist_get k l = None.
+Proof.
+  intros A l bound k Hb Hk. eapply alist_get_none_above; [|exact Hk]. intros e He. now destruct (Hb _ He).
+Qed.
+
+(* creating monitored items: the ids are consecutive, fresh, and every other entry is left alone *)
+Lemma create_items_spec : forall l items ctr sub owner items' ctr' ids,
+  create_items items ctr sub owner l = (items', ctr', ids) ->
+  ctr + N.of_nat (length l) < 4294967295 -> NoDup (map fst items) -> ids_below items ctr ->
+  NoDup (map fst items') /\ ids_below items' ctr' /\ ctr' = ctr + N.of_nat (length l) /\
+  NoDup ids /\ (forall id, In id ids -> ctr < id /\ alist_get id items = None) /\
+  (forall id, ~ In id ids -> alist_get id items' = alist_get id items).
+Proof.
+  induction l as [|[n a] t IH]; intros items ctr sub owner items' ctr' ids H Hw Hd Hb; cbn [create_items] in H.
+  - inv_pair H. cbn [length N.of_nat]. rewrite N.add_0_r.
+    split; [exact Hd|]. split; [exact Hb|]. split; [reflexivity|]. split; [constructor|]. split; [intros id []|reflexivity].
+  - destruct (create_items (alist_set (next_id ctr) (Item sub owner n a 0) items) (next_id ctr) sub owner t) as [[it2 c2] ids2] eqn:E.
+    inv_pair H. cbn [length] in Hw. rewrite Nat2N.inj_succ in Hw.
+    assert (Hn : next_id ctr = ctr + 1) by (apply next_id_small; lia).
+    assert (Hf : alist_get (ctr + 1) items = None) by (eapply fresh_above; [exact Hb | lia]).
+    rewrite Hn in E.
+    destruct (IH _ _ _ _ _ _ _ E) as (D2 & B2 & C2 & DI & FI & OI).
+    + lia.
+    + now apply nodup_keys_set_fresh.
+    + eapply ids_below_set; [exact Hb | lia].
+    + rewrite Hn. split; [exact D2|]. split; [exact B2|]. split; [cbn [length]; rewrite Nat2N.inj_succ; lia|].
+      split; [|split].
+      * constructor; [|exact DI]. intros C. destruct (FI _ C). lia.
+      * intros id [<-|Hin]; [split; [lia | exact Hf]|]. destruct (FI _ Hin) as [Hlt Hg]. split; [lia|].
+        rewrite alist_get_set_other in Hg by lia. exact Hg.
+      * intros id Hni. rewrite OI by (intros C; apply Hni; now right).
+        apply alist_get_set_other. intros ->. apply Hni. now left.
+Qed.
+
+Lemma set_mode_all_spec : forall ids items tok mode items' sts, set_mode_all items tok mode ids = (items', sts) ->
+  map fst items' = map fst items /\
+  (forall id it, alist_get id items = Some it -> owner_is (it_owner it) tok = false -> alist_get id items' = Some it) /\
+  (forall e, In e items' -> exists e0, In e0 items /\ fst e0 = fst e).
+Proof.
+  induction ids as [|id t IH]; intros items tok mode items' sts H; cbn [set_mode_all] in H.
+  - inv_pair H. repeat split; eauto.
+  - destruct (alist_get id items) as [it|] eqn:G.
+    + destruct (owner_is (it_owner it) tok) eqn:O.
+      * destruct (set_mode_all (alist_set id (Item (it_sub it) (it_owner it) (it_node it) (it_attr it) mode) items) tok mode t) as [it2 sts2] eqn:E.
+        inv_pair H. destruct (IH _ _ _ _ _ E) as (K & F & S). split; [|split].
+        -- rewrite K. eapply keys_alist_set_present; eassumption.
+        -- intros id0 it0 G0 O0. apply F; [|exact O0]. destruct (N.eq_dec id0 id) as [->|Hne]; [congruence|].
+           now rewrite alist_get_set_other.
+        -- intros e He. destruct (S _ He) as (e0 & Hin & Hf). destruct (in_alist_set _ _ _ _ _ Hin) as [->|Hin'].
+           ++ exists (id, it). split; [now apply alist_get_in' | exact Hf].
+           ++ exists e0. now split.
+      * destruct (set_mode_all items tok mode t) as [it2 sts2] eqn:E. inv_pair H. eapply IH; eassumption.
+    + destruct (set_mode_all items tok mode t) as [it2 sts2] eqn:E. inv_pair H. eapply IH; eassumption.
+Qed.
+
+(* every event keeps the invariant as long as the counters do not wrap *)
+Definition weight (e : event) : N :=
+  match e with
+  | EReq _ _ (RCreateSub _) => 1
+  | EReq _ _ (RCreateItems _ l) => N.of_nat (length l)
+  | _ => 0
+  end.
+
+Lemma handle_ids : forall fuel s e s' o, handle fuel s e = (s', o) -> ids_inv s ->
+  sv_last_sub s + weight e < 4294967295 -> sv_item_ctr s + weight e < 4294967295 ->
+  ids_inv s' /\ sv_last_sub s' <= sv_last_sub s + weight e /\ sv_item_ctr s' <= sv_item_ctr s + weight e /\
+  sv_last_sub s <= sv_last_sub s' /\ sv_item_ctr s <= sv_item_ctr s'.
+Proof.
+  intros fuel s e s' o H (D1 & B1 & D2 & B2) W1 W2.
+  assert (Same : sv_subs s' = sv_subs s -> sv_last_sub s' = sv_last_sub s -> sv_items s' = sv_items s -> sv_item_ctr s' = sv_item_ctr s ->
+          ids_inv s' /\ sv_last_sub s' <= sv_last_sub s + weight e /\ sv_item_ctr s' <= sv_item_ctr s + weight e /\
+          sv_last_sub s <= sv_last_sub s' /\ sv_item_ctr s <= sv_item_ctr s').
+  { intros E1 E2 E3 E4. unfold ids_inv. rewrite E1, E2, E3, E4. split; [exact (conj D1 (conj B1 (conj D2 B2)))|]. repeat split; lia. }
+  destruct e as [chan tok r|id|id]; cbn [handle] in H.
+  - destruct (negb (has_handler r)); [inv_pair H; now apply Same|].
+    destruct (check_session s (svc_of r) tok); [inv_pair H; now apply Same|].
+    destruct r; cbn [dispatch] in H; try (break_in H; inv_pair H; now apply Same).
+    + (* create subscription *)
+      destruct (alist_get tok (sv_sessions s)); [|inv_pair H; now apply Same].
+      cbn [weight] in *. assert (Hn : next_id (sv_last_sub s) = sv_last_sub s + 1) by (apply next_id_small; lia).
+      assert (Hf : alist_get (sv_last_sub s + 1) (sv_subs s) = None) by (eapply fresh_above; [exact B1 | lia]).
+      rewrite Hn in H.
+      assert (I' : ids_inv (set_subs s (alist_set (sv_last_sub s + 1) (SSub (Some tok) chan (revise iv)) (sv_subs s)) (sv_last_sub s + 1))).
+      { unfold ids_inv. cbn [set_subs sv_subs sv_last_sub sv_items sv_item_ctr].
+        split; [now apply nodup_keys_set_fresh|]. split; [eapply ids_below_set; [exact B1 | lia]|]. split; assumption. }
+      break_in H; inv_pair H; (split; [exact I'|]); cbn [set_subs sv_last_sub sv_item_ctr]; lia.
+    + (* create items *)
+      destruct (alist_get sub (sv_subs s)) as [sb|]; [|inv_pair H; now apply Same].
+      destruct (alist_get tok (sv_sessions s)); [|inv_pair H; now apply Same].
+      destruct (owner_is (sub_owner sb) tok); [|inv_pair H; now apply Same].
+      destruct (create_items (sv_items s) (sv_item_ctr s) sub (sub_owner sb) l) as [[items ctr] ids] eqn:E. inv_pair H.
+      cbn [weight] in *. destruct (create_items_spec _ _ _ _ _ _ _ _ E W2 D2 B2) as (D' & B' & C' & _).
+      unfold ids_inv. cbn [set_items sv_subs sv_last_sub sv_items sv_item_ctr].
+      split; [exact (conj D1 (conj B1 (conj D' B')))|]. repeat split; lia.
+    + (* set mode *)
+      destruct (alist_get tok (sv_sessions s)); [|inv_pair H; now apply Same].
+      destruct (set_mode_all (sv_items s) tok mode ids) as [items sts] eqn:E. inv_pair H.
+      destruct (set_mode_all_spec _ _ _ _ _ _ E) as (K & _ & S).
+      unfold ids_inv. cbn [set_items sv_subs sv_last_sub sv_items sv_item_ctr weight].
+      split; [|repeat split; lia]. split; [exact D1|]. split; [exact B1|]. split; [now rewrite K|].
+      intros e He. destruct (S _ He) as (e0 & Hin & Hf). rewrite <- Hf. exact (B2 _ Hin).
+  - inv_pair H. unfold ids_inv. cbn [sv_subs sv_last_sub sv_items sv_item_ctr weight].
+    split; [|repeat split; lia]. split; [now apply nodup_keys_del|].
+    split; [intros e He; apply B1; eapply in_alist_del; eassumption|].
+    split; [now apply nodup_keys_filter|]. intros e He. apply B2. apply filter_In in He. tauto.
+  - inv_pair H. unfold ids_inv. cbn [set_items sv_subs sv_last_sub sv_items sv_item_ctr weight].
+    split; [|repeat split; lia]. split; [exact D1|]. split; [exact B1|]. split; [now apply nodup_keys_del|].
+    intros e He. apply B2. eapply in_alist_del; eassumption.
+Qed.
+
+Definition total_weight (h : list event) : N := fold_right (fun e acc => weight e + acc) 0 h.
+
+Lemma run_ids : forall fuel h s, ids_inv s ->
+  sv_last_sub s + total_weight h < 4294967295 -> sv_item_ctr s + total_weight h < 4294967295 ->
+  ids_inv (run fuel s h) /\ sv_last_sub (run fuel s h) <= sv_last_sub s + total_weight h /\
+  sv_item_ctr (run fuel s h) <= sv_item_ctr s + total_weight h.
+Proof.
+  unfold run. induction h as [|e t IH]; intros s I W1 W2; cbn [fold_left total_weight fold_right] in *.
+  - split; [exact I|]. split; lia.
+  - unfold step at 2 4 6. destruct (handle fuel s e) as [s' o] eqn:E. cbn [fst].
+    destruct (handle_ids _ _ _ _ _ E I) as (I' & L1 & L2 & _ & _); [fold (total_weight t) in *; lia | fold (total_weight t) in *; lia|].
+    fold (total_weight t) in *.
+    destruct (IH s' I') as (I2 & M1 & M2); [lia | lia|]. split; [exact I2|]. split; lia.
+Qed.
+
+(* a request of one session leaves the subscriptions and items of the others alone *)
+Lemma handle_scoped : forall fuel s chan tok r s' o, handle fuel s (EReq chan tok r) = (s', o) -> ids_inv s ->
+  sv_last_sub s + weight (EReq chan tok r) < 4294967295 -> sv_item_ctr s + weight (EReq chan tok r) < 4294967295 ->
+  (forall id sub, alist_get id (sv_subs s) = Some sub -> alist_get id (sv_subs s') = Some sub) /\
+  (forall id it, alist_get id (sv_items s) = Some it -> owner_is (it_owner it) tok = false -> alist_get id (sv_items s') = Some it).
+Proof.
+  intros fuel s chan tok r s' o H (D1 & B1 & D2 & B2) W1 W2.
+  assert (Same : sv_subs s' = sv_subs s -> sv_items s' = sv_items s ->
+          (forall id sub, alist_get id (sv_subs s) = Some sub -> alist_get id (sv_subs s') = Some sub) /\
+          (forall id it, alist_get id (sv_items s) = Some it -> owner_is (it_owner it) tok = false -> alist_get id (sv_items s') = Some it)).
+  { intros E1 E2. rewrite E1, E2. split; auto. }
+  cbn [handle] in H.
+  destruct (negb (has_handler r)); [inv_pair H; now apply Same|].
+  destruct (check_session s (svc_of r) tok); [inv_pair H; now apply Same|].
+  destruct r; cbn [dispatch] in H; try (break_in H; inv_pair H; now apply Same).
+  - destruct (alist_get tok (sv_sessions s)); [|inv_pair H; now apply Same].
+    cbn [weight] in *. assert (Hn : next_id (sv_last_sub s) = sv_last_sub s + 1) by (apply next_id_small; lia).
+    assert (Hf : alist_get (sv_last_sub s + 1) (sv_subs s) = None) by (eapply fresh_above; [exact B1 | lia]).
+    rewrite Hn in H.
+    assert (G : forall id sub, alist_get id (sv_subs s) = Some sub ->
+                alist_get id (alist_set (sv_last_sub s + 1) (SSub (Some tok) chan (revise iv)) (sv_subs s)) = Some sub).
+    { intros id sub Hg. rewrite alist_get_set_other; [exact Hg | intros ->; congruence]. }
+    break_in H; inv_pair H; cbn [set_subs sv_subs sv_items]; (split; [exact G | auto]).
+  - destruct (alist_get sub (sv_subs s)) as [sb|]; [|inv_pair H; now apply Same].
+    destruct (alist_get tok (sv_sessions s)); [|inv_pair H; now apply Same].
+    destruct (owner_is (sub_owner sb) tok); [|inv_pair H; now apply Same].
+    destruct (create_items (sv_items s) (sv_item_ctr s) sub (sub_owner sb) l) as [[items ctr] ids] eqn:E. inv_pair H.
+    cbn [weight] in *. destruct (create_items_spec _ _ _ _ _ _ _ _ E W2 D2 B2) as (_ & _ & _ & _ & FI & OI).
+    cbn [set_items sv_subs sv_items]. split; [auto|]. intros id it Hg _. rewrite OI; [exact Hg|].
+    intros C. destruct (FI _ C) as [_ Hn]. congruence.
+  - destruct (alist_get tok (sv_sessions s)); [|inv_pair H; now apply Same].
+    destruct (set_mode_all (sv_items s) tok mode ids) as [items sts] eqn:E. inv_pair H.
+    destruct (set_mode_all_spec _ _ _ _ _ _ E) as (_ & F & _).
+    cbn [set_items sv_subs sv_items]. split; [auto | exact F].
+Qed.
+
+(* a delete is only started (status Good, goroutine spawned) for what the requesting session owns *)
+Lemma del_sub_status_ok : forall s tok id, del_sub_status s tok id = StOK ->
+  exists sub, alist_get id (sv_subs s) = Some sub /\ sub_owner sub = Some tok.
+Proof.
+  intros s tok id H. unfold del_sub_status in H. destruct (alist_get id (sv_subs s)) as [sub|]; [|discriminate].
+  exists sub. split; [reflexivity|]. unfold owner_is in H. destruct (sub_owner sub) as [t|]; [|discriminate].
+  destruct (t =? tok) eqn:E; [apply N.eqb_eq in E; now subst | discriminate].
+Qed.
+
+Lemma del_item_status_ok : forall s tok id, del_item_status s tok id = StOK ->
+  exists it, alist_get id (sv_items s) = Some it /\ it_owner it = Some tok.
+Proof.
+  intros s tok id H. unfold del_item_status in H. destruct (alist_get id (sv_items s)) as [it|]; [|discriminate].
+  exists it. split; [reflexivity|]. unfold owner_is in H. destruct (it_owner it) as [t|]; [|discriminate].
+  destruct (t =? tok) eqn:E; [apply N.eqb_eq in E; now subst | discriminate].
+Qed.
+
+Lemma handle_create_sub_fresh : forall fuel s chan tok iv s' id rv, handle fuel s (EReq chan tok (RCreateSub iv)) = (s', OCreateSub id rv) ->
+  ids_inv s -> sv_last_sub s + 1 < 4294967295 ->
+  alist_get id (sv_subs s) = None /\ id <> 0 /\ id = sv_last_sub s + 1 /\
+  alist_get id (sv_subs s') = Some (SSub (Some tok) chan rv) /\ rv = revise iv.
+Proof.
+  intros fuel s chan tok iv s' id rv H (D1 & B1 & _) W. cbn [handle has_handler negb svc_of] in H.
+  destruct (check_session s SvcCreateSubscription tok); [discriminate|]. cbn [dispatch] in H.
+  destruct (alist_get tok (sv_sessions s)); [|discriminate].
+  assert (Hn : next_id (sv_last_sub s) = sv_last_sub s + 1) by (apply next_id_small; lia). rewrite Hn in H.
+  destruct (worker_start _ _); [discriminate|]. inv_pair H.
+  split; [eapply fresh_above; [exact B1 | lia]|]. split; [lia|]. split; [reflexivity|]. split; [|reflexivity].
+  cbn [set_subs sv_subs]. apply alist_get_set_same.
+Qed.
+
+Lemma handle_create_items_fresh : forall fuel s chan tok sub l s' ids, handle fuel s (EReq chan tok (RCreateItems sub l)) = (s', OCreateItems ids) ->
+  ids_inv s -> sv_item_ctr s + N.of_nat (length l) < 4294967295 ->
+  NoDup ids /\ forall id, In id ids -> alist_get id (sv_items s) = None /\ id <> 0.
+Proof.
+  intros fuel s chan tok sub l s' ids H (_ & _ & D2 & B2) W. cbn [handle has_handler negb svc_of] in H.
+  destruct (check_session s SvcCreateMonitoredItems tok); [discriminate|]. cbn [dispatch] in H.
+  destruct (alist_get sub (sv_subs s)) as [sb|]; [|discriminate].
+  destruct (alist_get tok (sv_sessions s)); [|discriminate].
+  destruct (owner_is (sub_owner sb) tok); [|discriminate].
+  destruct (create_items (sv_items s) (sv_item_ctr s) sub (sub_owner sb) l) as [[items ctr] ids0] eqn:E. inv_pair H.
+  destruct (create_items_spec _ _ _ _ _ _ _ _ E W D2 B2) as (_ & _ & _ & DI & FI & _).
+  split; [exact DI|]. intros id Hin. destruct (FI _ Hin). split; [assumption | lia].
+Qed.
+
+Lemma init_ids_inv : forall sp eps, ids_inv (init sp eps).
+Proof. intros. unfold ids_inv, init. cbn [sv_subs sv_items sv_last_sub sv_item_ctr map]. split; [constructor|]. split; [intros e []|]. split; [constructor | intros e []]. Qed.
